@@ -404,7 +404,7 @@ func checkC09(c *Ctx) {
 	forms := c09Forms
 	nsig := len(c09Signatures(maxP))
 	c.Extra["signatures"] = nsig
-	progs = append(progs, c09Recursion(c.pick(300, 700)))
+	progs = append(progs, c09Recursion(c.pick(300, 450)))
 	progs = append(progs, c09TypedDecls(), c09VariadicTypes(), c09NamedTypes(false), c09NamedTypes(true))
 	// seeded random call-heavy programs: function literals, method values, return f(), variadics
 	r := rand.New(rand.NewSource(c.Seed))
@@ -636,6 +636,7 @@ func c09NamedTypes(split bool) *Prog {
 	tLv := &Ty{K: "int8", Alias: "Lv"}
 	tCs := &Ty{K: "uint8", Alias: "Cs"}
 	tLi := &Ty{K: "slice", Elem: TInt, Alias: "Li"}
+	p.Globals = append(p.Globals, &S{K: "declzero", Names: []string{"Cnt"}, DeclTy: TInt, Global: true})
 	p.TypeDefs = append(p.TypeDefs, &TypeDef{Name: "Lv", Under: TInt8}, &TypeDef{Name: "Cs", Under: TUint8}, &TypeDef{Name: "Li", Under: SliceOf(TInt)})
 	call := func(fn string, t *Ty, n int, args ...*E) *E { return &E{K: "call", Fn: fn, Ty: t, NRes: n, Args: args} }
 	p.Funcs = append(p.Funcs,
@@ -656,6 +657,16 @@ func c09NamedTypes(split bool) *Prog {
 		&Func{Name: "setFirst", Params: []string{"k", "xs"}, PTypes: []*Ty{TInt, SliceOf(TInt)}, Variadic: true, Results: []*Ty{TInt}, Body: []*S{
 			asg(&E{K: "index", Ty: TInt, X: v("xs", SliceOf(TInt)), I: lit(TInt, 0)}, v("k", TInt)), ret(lenOf(v("xs", SliceOf(TInt))))}},
 		// a function literal with another number of results, then results forwarded from a call
+		// a call as the post statement of a for loop drops its results like any call statement
+		&Func{Name: "tick", Results: []*Ty{TInt}, Body: []*S{{K: "incdec", Lhs: []*E{{K: "var", Ty: TInt, Name: "Cnt", Global: true}}, D: 1}, ret(&E{K: "var", Ty: TInt, Name: "Cnt", Global: true})}},
+		&Func{Name: "tick2", Results: []*Ty{TInt, TInt}, Body: []*S{{K: "incdec", Lhs: []*E{{K: "var", Ty: TInt, Name: "Cnt", Global: true}}, D: 1}, ret(&E{K: "var", Ty: TInt, Name: "Cnt", Global: true}, lit(TInt, 5))}},
+		&Func{Name: "postLoop", Params: []string{"n"}, PTypes: []*Ty{TInt}, Results: []*Ty{TInt, TString}, Body: []*S{
+			dcl("t", lit(TInt, 0)), asg(&E{K: "var", Ty: TInt, Name: "Cnt", Global: true}, lit(TInt, 0)),
+			{K: "for", Semis: true, Cond: bin("<", TBool, &E{K: "var", Ty: TInt, Name: "Cnt", Global: true}, v("n", TInt)), Post: &S{K: "expr", NRes: 1, E: call("tick", nil, 0)},
+				Body: []*S{{K: "opassign", Lhs: []*E{v("t", TInt)}, Op: "+", E: lit(TInt, 10)}}},
+			{K: "for", Init: &S{K: "expr", NRes: 2, E: call("tick2", nil, 0)}, Cond: bin("<", TBool, &E{K: "var", Ty: TInt, Name: "Cnt", Global: true}, bin("+", TInt, v("n", TInt), lit(TInt, 3))), Post: &S{K: "expr", NRes: 2, E: call("tick2", nil, 0)},
+				Body: []*S{{K: "opassign", Lhs: []*E{v("t", TInt)}, Op: "+", E: lit(TInt, 1)}}},
+			ret(v("t", TInt), sS("done"))}},
 		&Func{Name: "dropper", Params: []string{"n"}, PTypes: []*Ty{TInt}, Results: []*Ty{TInt}, Body: []*S{
 			dcl("k", lit(TInt, 42)), {K: "expr", NRes: 2, E: call("two", nil, 0, v("n", TInt))}, {K: "expr", NRes: 2, E: call("two", nil, 0, v("k", TInt))}, ret(v("k", TInt))}},
 		&Func{Name: "two", Params: []string{"a"}, PTypes: []*Ty{TInt}, Results: []*Ty{TInt, TInt}, Body: []*S{ret(v("a", TInt), bin("+", TInt, v("a", TInt), lit(TInt, 1)))}},
@@ -695,6 +706,8 @@ func c09NamedTypes(split bool) *Prog {
 		{K: "decl", Names: []string{"r1", "r2"}, Exprs: []*E{call("afterLit", nil, 2, lit(TInt, 3))}},
 		pr(sS("afterLit"), v("r1", TInt), v("r2", TInt)),
 		pr(sS("dropper"), call("dropper", TInt, 1, lit(TInt, 5))),
+		{K: "decl", Names: []string{"pt", "ps"}, Exprs: []*E{call("postLoop", nil, 2, lit(TInt, 3))}},
+		pr(sS("postLoop"), v("pt", TInt), v("ps", TString)),
 	}
 	p.Funcs = append(p.Funcs, &Func{Name: "Main", Body: body})
 	p.Lits = append(p.Lits, c09Lit1)
